@@ -144,6 +144,37 @@ fn check_pair(a: &Item, b: &Item, st: &mut Stats, mode: Count) {
                 st.fail("langid:eq-str-accepts-padded-text", case(), size, format!("{sa:?} == {p1:?} or {p2:?}"));
             }
         }
+        // subtags: == &str only for the exact canonical text
+        let mut texts: Vec<(String, bool)> = vec![];
+        {
+            let mut probe = |canon: &str, f: &dyn Fn(&str) -> bool| {
+                let mut ok = f(canon);
+                for pad in ["\0", " ", "a", "-", "\0\0"] {
+                    ok &= !f(&format!("{canon}{pad}")) && !f(&format!("{pad}{canon}"));
+                }
+                if canon.len() > 1 {
+                    ok &= !f(&canon[..canon.len() - 1]);
+                }
+                texts.push((canon.to_string(), ok));
+            };
+            let l = ia.language;
+            probe(l.as_str(), &|t| l == t);
+            if let Some(x) = ia.script {
+                probe(x.as_str(), &|t| x == t);
+            }
+            if let Some(x) = ia.region {
+                probe(x.as_str(), &|t| x == t);
+            }
+            for x in ia.variants() {
+                probe(x.as_str(), &|t| *x == t);
+                probe(x.as_str(), &|t| *x == *t);
+            }
+        }
+        for (t, ok) in texts {
+            if !ok {
+                st.fail("subtag:eq-str-not-exact", case(), size, format!("subtag {t:?} of {sa:?}: == &str is not 'exactly the canonical text'"));
+            }
+        }
         // Eq / Hash / Ord must stay mutually consistent whatever the public fields hold,
         // including the unsupported `other` map (== vs to_string is NOT claimed for it)
         let mut x = a.loc.clone();
